@@ -223,22 +223,33 @@ def showCRes : ExecutorConc.CRes → String
 def parseCRes (s : String) : Option Res :=
   if s == "ok" then some .ok else if s == "l" then some .logical else parseRes s
 
+/-- position (1-based) in the offered order of the j-th USABLE host (j ≥ 1); the unusable ones — a SelectedHost
+    without HostInfo (`0`), a host whose pool has no connection (`c`) — are skipped by the loop head of `do`
+    without consuming anything -/
+def realHost (mask : List Char) (j : Nat) : Nat :=
+  let rec go : List Char → Nat → Nat → Nat
+    | [], _, pos => pos
+    | ch :: rest, need, pos =>
+        if ch == '1' then (if need ≤ 1 then pos + 1 else go rest (need - 1) (pos + 1)) else go rest need (pos + 1)
+  go mask j 0
+
 /-- what the harness sees when execution `i` takes the step that leads from `k` to `k'`: a request arriving at a
     host with a consistency level, an attempt that reached no server, or the execution ending -/
-def stepSeen (nhosts : Nat) (k k' : ExecutorConc.MK) (i : Nat) (hostOf : List Nat) : String × Nat :=
+def stepSeen (mask : List Char) (k k' : ExecutorConc.MK) (i : Nat) (hostOf : List Nat) : String × Nat :=
   let c := k.c
   let c' := k'.c
+  let nhosts := (mask.filter (· == '1')).length
   match c'.m.exs[i]? with
   | some .inflight =>
-      let h := if c'.m.left < c.m.left then nhosts - c.m.left + 1 else hostOf.getD i 0
+      let h := if c'.m.left < c.m.left then realHost mask (nhosts - c.m.left + 1) else hostOf.getD i 0
       (s!"s{h}@{k'.reqCons.headD 0}", h)
   | some .done =>
       -- an attempt that reached no server was counted (and, taken from the iterator, has used up a host)
-      if c'.m.cnt > c.m.cnt then ("d", if c'.m.left < c.m.left then nhosts - c.m.left + 1 else hostOf.getD i 0)
+      if c'.m.cnt > c.m.cnt then ("d", if c'.m.left < c.m.left then realHost mask (nhosts - c.m.left + 1) else hostOf.getD i 0)
       else ("e", hostOf.getD i 0)
   | _ => ("?", hostOf.getD i 0)
 
-def replayTok (pol : Option Policy) (derived : Bool) (nhosts e : Nat) (st : CReplay) (tok : String) : CReplay :=
+def replayTok (pol : Option Policy) (derived : Bool) (mask : List Char) (e : Nat) (st : CReplay) (tok : String) : CReplay :=
   if st.bad.isSome then st
   else
     let fail (why : String) : CReplay := { st with bad := some s!"{why}@{tok}" }
@@ -266,7 +277,7 @@ def replayTok (pol : Option Policy) (derived : Bool) (nhosts e : Nat) (st : CRep
             if !okState then fail "step-not-enabled"
             else
               let k' := ExecutorConc.stepK pol derived st.k (.ex (if kind == 'L' then .launch i else .decide i))
-              let (want, h) := stepSeen nhosts st.k k' i st.hostOf
+              let (want, h) := stepSeen mask st.k k' i st.hostOf
               if want != out then
                 -- a request where the machine sends none, after the context of the attempts is done
                 if c.attDone derived && out.startsWith "s" then fail s!"request-after-cancellation:{want}"
@@ -282,8 +293,10 @@ def replayTok (pol : Option Policy) (derived : Bool) (nhosts e : Nat) (st : CRep
     | _ => fail "bad-token"
 
 def speccOp (kind idem pol a nh cons0 events nreq att obsInfo consEnd : String) : String :=
-  match parseKind kind, stmtIdempotent kind idem, parsePolicy pol, a.toNat?, nh.toNat?, nreq.toNat?, att.toNat?,
-        cons0.toNat?, consEnd.toNat? with
+  let mask := nh.toList
+  match parseKind kind, stmtIdempotent kind idem, parsePolicy pol, a.toNat?,
+        (if mask.all (fun ch => ch == '1' || ch == '0' || ch == 'c') then some (mask.filter (· == '1')).length else none),
+        nreq.toNat?, att.toNat?, cons0.toNat?, consEnd.toNat? with
   | some k, some idm, some p, some sa, some hosts, some n, some cntEnd, some cs0, some csEnd =>
     let e := maxExecutions idm sa
     -- `Conn.executeQuery` runs the attempt under the executor's context, `Conn.executeBatch` under `batch.Context()`
@@ -291,7 +304,7 @@ def speccOp (kind idem pol a nh cons0 events nreq att obsInfo consEnd : String) 
     let toks := events.splitOn ","
     let arrived := (toks.filterMap fun t => if t.startsWith "A" then (t.drop 1).toNat? else none).headD 0
     let st0 : CReplay := { k := ExecutorConc.initK 0 hosts e cs0, hostOf := List.replicate e 0 }
-    let st := (toks.filter fun t => !t.startsWith "A").foldl (replayTok p derived hosts e) st0
+    let st := (toks.filter fun t => !t.startsWith "A").foldl (replayTok p derived mask e) st0
     if arrived > e then s!"reject:too-many-executions:{arrived}"
     else match st.bad with
     | some why => s!"reject:{why}"
